@@ -48,14 +48,14 @@ Definition opnd_bits (m : list (string * Z)) (q : qarg) : option (list bitref) :
              | Some n => if (1 <=? n) && (n <=? 100000) then Some (reg_bits r n) else None
              | None => None
              end
-  | QIdx r [IdxList [IRange ea eb None]] =>
+  | QIdx r [IdxList [IRange ea eb ec]] =>
       match sget r m with
       | Some n =>
-          match lit_end ea 0, lit_end eb n with
-          | Some a, Some b =>
-              if (0 <=? a) && (a <? n) && (0 <=? b - 1) && (b - 1 <? n) && (a <=? b) && (n <=? 100000)
-              then Some (map (fun i => (r, i)) (slice_ids a b)) else None
-          | _, _ => None
+          match lit_end ea 0, lit_end eb n, lit_end ec 1 with
+          | Some a, Some b, Some st =>
+              if in_size n a && in_size n (b - 1)
+              then match py_range a b st with Ok l => Some (map (fun i => (r, i)) l) | Err _ => None end else None
+          | _, _, _ => None
           end
       | None => None
       end
@@ -89,18 +89,18 @@ Proof.
                     forallb (in_reg m) bits = true).
     { destruct (lit_bit (QIdx r idx)) as [b|]; [|discriminate]. destruct (in_reg m b) eqn:Eb; [|discriminate].
       intros H. injection H as <-. cbn. now rewrite Eb. }
-    destruct idx as [|[vals|[|[e|ea eb [ec|]] [|it2 items']]] [|i1 idx']]; try exact Hlit.
+    destruct idx as [|[vals|[|[e|ea eb ec] [|it2 items']]] [|i1 idx']]; try exact Hlit.
     { destruct (sget r m) as [n|] eqn:Es; [|discriminate]. destruct (lit_ints vals) as [zs|]; [|discriminate].
       destruct (forallb (in_size n) zs) eqn:Ef; [|discriminate]. intros H. injection H as <-.
       apply forallb_forall. intros x Hx. apply in_map_iff in Hx as (i & <- & Hi). unfold in_reg. cbn [fst snd]. rewrite Es.
       eapply forallb_forall in Ef; eauto. }
     destruct (sget r m) as [n|] eqn:Es; [|discriminate].
-    destruct (lit_end ea 0) as [a|]; [|discriminate]. destruct (lit_end eb n) as [b|]; [|discriminate].
-    match goal with |- (if ?c then _ else _) = _ -> _ => destruct c eqn:C; [|discriminate] end.
-    intros H. injection H as <-.
-    apply andb_true_iff in C as [C _]. apply andb_true_iff in C as [C _]. apply andb_true_iff in C as [C B1]. apply andb_true_iff in C as [C B0].
-    apply andb_true_iff in C as [A0 A1]. apply Z.leb_le in A0, B0. apply Z.ltb_lt in A1, B1.
-    apply forallb_forall. intros x Hx. apply in_map_iff in Hx as (i & <- & Hi). apply slice_ids_range in Hi.
+    destruct (lit_end ea 0) as [a|]; [|discriminate]. destruct (lit_end eb n) as [b|]; [|discriminate]. destruct (lit_end ec 1) as [st|]; [|discriminate].
+    destruct (in_size n a && in_size n (b - 1)) eqn:C; [|discriminate]. destruct (py_range a b st) as [l|] eqn:Er; [|discriminate].
+    intros H. injection H as <-. apply andb_true_iff in C as [A B]. unfold in_size in A, B.
+    apply andb_true_iff in A as [A0 A1]. apply andb_true_iff in B as [B0 B1]. apply Z.leb_le in A0, B0. apply Z.ltb_lt in A1, B1.
+    pose proof (py_range_in_register a b st n l Er (conj A0 A1) (conj B0 B1)) as Hf. rewrite Forall_forall in Hf.
+    apply forallb_forall. intros x Hx. apply in_map_iff in Hx as (i & <- & Hi). specialize (Hf i Hi).
     unfold in_reg. cbn [fst snd]. rewrite Es. apply andb_true_iff. split; [apply Z.leb_le|apply Z.ltb_lt]; lia.
 Qed.
 
@@ -150,7 +150,7 @@ Proof.
       apply andb_true_iff in Ei as [H0 H1]. apply Z.leb_le in H0. apply Z.ltb_lt in H1.
       eapply resolve_literal; eauto; lia. }
     cbn [opnd_bits] in H.
-    destruct idx as [|[vals|[|[e|ea eb [ec|]] [|it2 items']]] [|i1 idx']]; try exact (Hlit H).
+    destruct idx as [|[vals|[|[e|ea eb ec] [|it2 items']]] [|i1 idx']]; try exact (Hlit H).
     { destruct (sget r (if is_q then e_q env else e_c env)) as [n|] eqn:Hs; [|discriminate].
       destruct (lit_ints vals) as [zs|] eqn:Ez; [|discriminate]. destruct (forallb (in_size n) zs) eqn:Ef; [|discriminate]. injection H as <-.
       unfold resolve_one, qarg_name. rewrite (bind_eq _ _ s s s eq_refl).
@@ -164,25 +164,22 @@ Proof.
       rewrite (bind_eq _ _ s tt s (validate_all n zs s Ef)). reflexivity. }
     destruct (sget r (if is_q then e_q env else e_c env)) as [n|] eqn:Hs; [|discriminate].
     destruct (lit_end ea 0) as [a|] eqn:Ea; [|discriminate]. destruct (lit_end eb n) as [b|] eqn:Eb; [|discriminate].
-    match type of H with (if ?c then _ else _) = _ => destruct c eqn:C; [|discriminate] end. injection H as <-.
-    apply andb_true_iff in C as [C N1]. apply andb_true_iff in C as [C AB]. apply andb_true_iff in C as [C B1]. apply andb_true_iff in C as [C B0].
-    apply andb_true_iff in C as [A0 A1]. apply Z.leb_le in A0, B0, AB, N1. apply Z.ltb_lt in A1, B1.
+    destruct (lit_end ec 1) as [st|] eqn:Ec; [|discriminate].
+    destruct (in_size n a && in_size n (b - 1)) eqn:C; [|discriminate]. destruct (py_range a b st) as [l|] eqn:Er; [|discriminate].
+    injection H as <-. apply andb_true_iff in C as [A B]. unfold in_size in A, B.
     unfold resolve_one, qarg_name. rewrite (bind_eq _ _ s s s eq_refl).
     assert (Hm : sget r (if is_q then qreg_sizes s else creg_sizes s) = Some n).
     { destruct is_q; [rewrite (R_q _ _ R)|rewrite (R_c _ _ R)]; exact Hs. }
     rewrite Hm. rewrite (bind_eq _ _ s (false, if is_q then qreg_sizes s else creg_sizes s) s eq_refl).
     assert (Hl : name_in_levels s r = true) by (destruct is_q; [eapply R_lvq|eapply R_lvc]; eauto).
     rewrite Hl. cbn [guard]. rewrite (bind_eq _ _ s tt s eq_refl). rewrite Hm.
-    rewrite (bind_eq _ _ s (slice_ids a b) s); [reflexivity|].
+    rewrite (bind_eq _ _ s l s); [reflexivity|].
     unfold range_ids.
     rewrite (bind_eq _ _ s a s (lit_end_eval call_rec ea 0 a s Ea)).
     rewrite (bind_eq _ _ s b s (lit_end_eval call_rec eb n b s Eb)).
-    rewrite (bind_eq _ _ s 1 s eq_refl).
-    unfold validate_index.
-    assert ((0 <=? a) && (a <? n) = true) as -> by (apply andb_true_iff; split; [apply Z.leb_le|apply Z.ltb_lt]; lia).
-    rewrite (bind_eq _ _ s tt s eq_refl).
-    assert ((0 <=? b - 1) && (b - 1 <? n) = true) as -> by (apply andb_true_iff; split; [apply Z.leb_le|apply Z.ltb_lt]; lia).
-    rewrite (bind_eq _ _ s tt s eq_refl). unfold lift. rewrite py_range_slice by lia. reflexivity.
+    rewrite (bind_eq _ _ s st s (lit_end_eval call_rec ec 1 st s Ec)).
+    unfold validate_index. rewrite A. rewrite (bind_eq _ _ s tt s eq_refl). rewrite B.
+    rewrite (bind_eq _ _ s tt s eq_refl). unfold lift. rewrite Er. reflexivity.
 Qed.
 
 Lemma dedup_check_ext l : forall s1 s2, (forall y, existsb (bitref_eqb y) s1 = existsb (bitref_eqb y) s2) ->
@@ -332,7 +329,7 @@ Proof.
     { destruct (lit_bit (QIdx r idx)) as [b|] eqn:Eb; [|discriminate]. destruct (in_reg m b) eqn:Ei; [|discriminate]. intros _.
       pose proof (lit_bit_name _ _ Eb) as Hn. cbn [qarg_name] in Hn. rewrite Hn. unfold in_reg in Ei.
       destruct (sget (fst b) m) eqn:E; [|discriminate]. eapply smemk_of; eauto. }
-    destruct idx as [|[vals|[|[e|ea eb [ec|]] [|it2 items']]] [|i1 idx']]; try exact Hlit.
+    destruct idx as [|[vals|[|[e|ea eb ec] [|it2 items']]] [|i1 idx']]; try exact Hlit.
     { destruct (sget r m) eqn:E; [|discriminate]. intros _. eapply smemk_of; eauto. }
     destruct (sget r m) eqn:E; [|discriminate]. intros _. eapply smemk_of; eauto.
 Qed.
